@@ -51,6 +51,7 @@ func checkC07(c *Ctx) {
 	c07HighRes(c)
 	c07HighRes2(c)
 	c07Reuse(c)
+	c07WeakDeep(c)
 	// word size: the same high-resolution cases in a build of this harness for a platform whose int has 32 bits (lattice
 	// indices packed into machine words, sizes and counts held in int)
 	if bin := os.Getenv("VCHECK_386_BIN"); bin != "" {
@@ -977,5 +978,128 @@ func c07HighRes2(c *Ctx) {
 		default:
 			c.Distinct(fmt.Sprintf("2d/highres/%d/%d", k.axis, k.cells))
 		}
+	})
+}
+
+//-----------------------------------------------------------------------------
+// Oracle 4: weak fields on deep trees. At resolutions where an unpruned reference is out of reach the metamorphic pair
+// render(f) / render(2^-k f) is still affordable when the features are tiny: 2^-k f has the same zero set, signs and
+// interpolation ratios, only fewer cubes can be skipped. Tiny balls sit next to every corner of the (padded) bounding
+// box and inside it, so that whatever order the tree is walked in, a deep chain of undecided cubes comes first or last.
+
+type c07Balls3 struct {
+	c  []v3.Vec
+	r  []float64
+	k  float64
+	bb sdf.Box3
+}
+
+func (s *c07Balls3) Evaluate(p v3.Vec) float64 {
+	d := math.Inf(1)
+	for i := range s.c {
+		d = math.Min(d, p.Sub(s.c[i]).Length()-s.r[i])
+	}
+	return d * s.k
+}
+func (s *c07Balls3) BoundingBox() sdf.Box3 { return s.bb }
+
+type c07Disc2 struct {
+	c  v2.Vec
+	r  float64
+	k  float64
+	bb sdf.Box2
+}
+
+func (s *c07Disc2) Evaluate(p v2.Vec) float64 { return (p.Sub(s.c).Length() - s.r) * s.k }
+func (s *c07Disc2) BoundingBox() sdf.Box2     { return s.bb }
+
+func c07WeakDeep(c *Ctx) {
+	type wd struct {
+		cells int
+		kpow  int
+	}
+	cases := []wd{{8200, 2}, {10000, 2}, {4100, 3}}
+	if !c.Quick {
+		cases = append(cases, wd{16300, 2}, wd{10000, 3}, wd{33000, 2}, wd{8111, 2}, wd{2050, 4})
+	}
+	parallelFor(len(cases), func(i int) {
+		k := cases[i]
+		r := c.Rng("weakdeep", i)
+		h := 2.0 / float64(k.cells)
+		bb := sdf.Box3{Min: v3.Vec{X: -1, Y: -1, Z: -1}, Max: v3.Vec{X: 1, Y: 1, Z: 1}}
+		mk := func(scale float64) *c07Balls3 {
+			s := &c07Balls3{k: scale, bb: bb}
+			rr := c.Rng("weakdeep-balls", i)
+			for corner := 0; corner < 8; corner++ {
+				// a ball of a few cells, a few cells from a corner of the box (the renderer pads the box by 1 %)
+				p := v3.Vec{X: -1.01 + h*rr.R(2, 5), Y: -1.01 + h*rr.R(2, 5), Z: -1.01 + h*rr.R(2, 5)}
+				if corner&1 != 0 {
+					p.X = -p.X
+				}
+				if corner&2 != 0 {
+					p.Y = -p.Y
+				}
+				if corner&4 != 0 {
+					p.Z = -p.Z
+				}
+				s.c = append(s.c, p)
+				s.r = append(s.r, h*rr.R(1.2, 1.9))
+			}
+			for q := 0; q < 3; q++ {
+				s.c = append(s.c, v3.Vec{X: rr.R(-0.9, 0.9), Y: rr.R(-0.9, 0.9), Z: rr.R(-0.9, 0.9)})
+				s.r = append(s.r, h*rr.R(5, 25))
+			}
+			return s
+		}
+		_ = r
+		scale := math.Ldexp(1, -k.kpow)
+		a := render.ToTriangles(mk(1), render.NewMarchingCubesOctree(k.cells))
+		b := render.ToTriangles(mk(scale), render.NewMarchingCubesOctree(k.cells))
+		c.Eval(2)
+		desc := fmt.Sprintf("11 balls of 1..25 cells, one next to each corner of [-1,1]^3 and 3 inside, field f vs f*2^-%d", k.kpow)
+		cs := c07Case{Index: i, Dim: 3, Cells: k.cells, Family: "weak-field-deep-tree", Shape: desc, TrisP: len(a), TrisU: len(b), ScaleK: k.kpow}
+		if m, e := diffTriangles(a, b, 0); m+e > 0 || len(a) != len(b) || len(a) == 0 {
+			c.Violate("", fmt.Sprintf("octree-weak-deep cells=%d %s: %d triangles from f, %d from the weaker field (%d only in the first, %d only in the second)", k.cells, desc, len(a), len(b), m, e), cs)
+			return
+		}
+		c.Distinct(fmt.Sprintf("3d/weakdeep/%d/%d", k.cells, k.kpow))
+	})
+	// 2D: a field so weak that no square at all can be skipped, on lattices of more than 2^24 squares
+	cells2 := []int{4000} // 1.01*4000 cells fill the 4096-cell root square: every quadrant holds part of the disc
+	if !c.Quick {
+		cells2 = append(cells2, 3000, 2100, 4050)
+	}
+	parallelFor(len(cells2), func(i int) {
+		n := cells2[i]
+		r := c.Rng("weakdeep2", i)
+		bb := sdf.Box2{Min: v2.Vec{X: -1.3, Y: -1.3}, Max: v2.Vec{X: 1.3, Y: 1.3}}
+		ctr := v2.Vec{X: r.R(-0.2, 0.2), Y: r.R(-0.2, 0.2)}
+		rad := r.R(0.8, 1.05)
+		la := collectLines(render.NewMarchingSquaresQuadtree(n), &c07Disc2{ctr, rad, 1, bb})
+		lb := collectLines(render.NewMarchingSquaresQuadtree(n), &c07Disc2{ctr, rad, math.Ldexp(1, -12), bb})
+		c.Eval(2)
+		desc := fmt.Sprintf("disc r=%.4g at %v in [-1.3,1.3]^2, field f vs f*2^-12 (no square can be skipped)", rad, ctr)
+		cs := c07Case{Index: i, Dim: 2, Cells: n, Family: "weak-field-deep-tree", Shape: desc, TrisP: len(la), TrisU: len(lb), ScaleK: 12}
+		cnt := map[sdf.Line2]int{}
+		for _, l := range la {
+			cnt[*l]++
+		}
+		extra := 0
+		for _, l := range lb {
+			if cnt[*l] > 0 {
+				cnt[*l]--
+			} else {
+				extra++
+			}
+		}
+		missing := 0
+		for _, v := range cnt {
+			missing += v
+		}
+		if missing+extra > 0 || len(la) == 0 {
+			c.Violate("", fmt.Sprintf("quadtree-weak-deep cells=%d %s: %d segments from f, %d from the weaker field (%d only in the first, %d only in the second)", n, desc, len(la), len(lb), missing, extra), cs)
+			return
+		}
+		c.Distinct(fmt.Sprintf("2d/weakdeep/%d", n))
 	})
 }
